@@ -216,6 +216,9 @@ pub fn fail_table() -> &'static [Error] {
             Error::custom(-1000, b"Below every class"),
             Error::new(ErrorCode::HardwareError),
             Error::new(ErrorCode::OutOfMemory),
+            // "no error" raised as an error by a handler: still the error of its message (class: none)
+            Error::new(ErrorCode::NoError),
+            Error::custom(0, b"Zero"),
         ]
         .into_iter()
         // device-defined numbers at and next to every class boundary, positive mirror images of the SCPI classes,
